@@ -452,6 +452,12 @@ func checkC10(c *lib.Ctx) {
 			if ec.Err == nil && v.name == "Fileread-open" {
 				continue
 			}
+			// a handler that answers "OK" (fxerr code 0) where a handle, attributes or a name must be returned
+			// has returned nothing: the client reports a protocol error for it (no value to give back). Only
+			// status-only requests can meaningfully be answered with ErrSSHFxOk.
+			if ec.Kind == "ok" && ec.Err != nil && v.name != "Filecmd" {
+				continue
+			}
 			e := v.do()
 			k := c10KindOfClientErr(e)
 			if ec.Err == nil {
